@@ -11,3 +11,15 @@ func yield(point string) {
 		f(point)
 	}
 }
+
+// SimSelect, when set, tells Search / Parallelize which of their two select cases to try first
+// (1 = pending notification, 2 = hand out the next command, 0 = no preference), so that a
+// simulator rather than the runtime's random choice decides when both are ready.
+var SimSelect func() int
+
+func selectHook() int {
+	if f := SimSelect; f != nil {
+		return f()
+	}
+	return 0
+}
